@@ -146,7 +146,7 @@ def setInput (g : CGraph ε) (c : Comp ε) (e : ε) : Except Err (CGraph ε) :=
     are computed by sympy/symengine); the model is the graph surgery.  `m` lists
     `comp ↦ comp.subs(σ)` in the iteration order of the set `_comps(self._g)`. -/
 def subsGraph (g : CGraph ε) (rate : ε → ε) (m : List (Node ε × Node ε)) : Except Err (CGraph ε) :=
-  relabelE ⟨g.adj.map (fun p => (p.1, p.2.map (fun q => (q.1, rate q.2))))⟩ m
+  relabelE (g.mapRates rate) m
 
 /-! #### queries of `CompartmentalSystem` -/
 
@@ -240,6 +240,48 @@ def toDict (g : CGraph ε) : List (Node ε) × List (Nat × Nat × ε) :=
 def fromDict (d : List (Node ε) × List (Nat × Nat × ε)) : CGraph ε :=
   let g0 := d.1.foldl (fun g n => if n.isOutput then g else g.addNode n) (newBuilder (ε := ε))
   d.2.foldl (fun g e => g.addEdge (d.1.getD e.1 .output) (d.1.getD e.2.1 .output) e.2.2) g0
+
+/-! #### operation sequences -/
+
+/-- everything that can be done to a builder (and `subs` / dict round trip of the system built from it) -/
+inductive Op (ε : Type) where
+  | addCompartment (c : Comp ε)
+  | removeCompartment (c : Comp ε)
+  | addFlow (s : Comp ε) (d : Node ε) (r : ε)
+  | removeFlow (s : Comp ε) (d : Node ε)
+  | moveDose (s d : Comp ε) (admid : Option Int)
+  | setDose (c : Comp ε) (ds : List (Dose ε))
+  | addDose (c : Comp ε) (ds : List (Dose ε))
+  | removeDose (c : Comp ε) (admid : Option Int)
+  | setLagTime (c : Comp ε) (e : ε)
+  | setBioavailability (c : Comp ε) (e : ε)
+  | setInput (c : Comp ε) (e : ε)
+  | subs (rates : List (ε × ε)) (m : List (Node ε × Node ε))
+  | roundtrip
+
+def Op.apply (g : CGraph ε) : Op ε → Except Err (CGraph ε)
+  | .addCompartment c => .ok (C05.addCompartment g c)
+  | .removeCompartment c => C05.removeCompartment g c
+  | .addFlow s d r => .ok (C05.addFlow g s d r)
+  | .removeFlow s d => C05.removeFlow g s d
+  | .moveDose s d a => C05.moveDose g s d a
+  | .setDose c ds => C05.setDose g c ds
+  | .addDose c ds => C05.addDose g c ds
+  | .removeDose c a => C05.removeDose g c a
+  | .setLagTime c e => C05.setLagTime g c e
+  | .setBioavailability c e => C05.setBioavailability g c e
+  | .setInput c e => C05.setInput g c e
+  | .subs rates m => subsGraph g (fun e => (alGet? rates e).getD e) m
+  | .roundtrip => .ok (fromDict (toDict g))
+
+/-- a refused operation leaves the builder unchanged -/
+def Op.step (g : CGraph ε) (op : Op ε) : CGraph ε :=
+  match op.apply g with
+  | .ok g' => g'
+  | .error _ => g
+
+/-- the builder after a sequence of operations on `CompartmentalSystemBuilder()` -/
+def runOps (ops : List (Op ε)) : CGraph ε := ops.foldl Op.step newBuilder
 
 end
 end Pharmpy.C05
